@@ -93,6 +93,9 @@ func (ix *pathIndex) cutLim(m *Event, c int64, lim int) (int, bool) {
 	}
 	pos := ix.wirePos[m]
 	mi := eventIndex(ix.p, m)
+	if mi == lim && c == 0 {
+		return pos, true // the observation is the very event up to which we look (len(Bytes()) of this Bytes())
+	}
 	if mi < 0 || mi >= lim {
 		return 0, false
 	}
@@ -583,17 +586,24 @@ func (a *Analysis) checkSumPath(rep *Report, ct *CodecType, pl *PathLayout) {
 	case isRootBuf(arg):
 		msg = "Calc is applied to the caller's whole output buffer: it also covers whatever the buffer held before this frame ([0, start) is not part of the frame)"
 	case arg.Op == "call" && (arg.Name == "bytes.NewBuffer" || arg.Name == "bytes.NewReader"):
-		s := stripCT(arg.Args[0])
+		s := flattenSlice(arg.Args[0])
 		if s.Op == "slice" && stripCT(s.Args[0]).Op == "bufbytes" && s.Args[1] != nil {
 			bb := ix.marker(stripCT(s.Args[0]))
-			lo := ix.marker(stripIntConv(s.Args[1]))
+			pLo, lo, okLo := ix.cutOf(s.Args[1])
+			hiOK := s.Args[2] == nil
+			if !hiOK {
+				// an explicit upper bound is fine when it is the end of what has been written (len(frame), len(Bytes()) …)
+				if pHi, mHi, okHi := ix.cutOf(s.Args[2]); okHi && pHi == ix.wirePos[calc] && mHi != nil && isRootBuf(mHi.Buf) {
+					hiOK = true
+				}
+			}
 			switch {
-			case s.Args[2] != nil:
+			case !hiOK:
 				msg = "checksummed span has an explicit upper bound " + s.Args[2].Pretty() + " (must extend to the last body byte)"
-			case lo == nil || lo.Kind != EvLen || ix.wirePos[lo] != 0 || !isRootBuf(lo.Buf):
+			case !okLo || lo == nil || pLo != 0 || !isRootBuf(lo.Buf):
 				p := -1
-				if lo != nil {
-					p = ix.wirePos[lo]
+				if okLo {
+					p = pLo
 				}
 				msg = fmt.Sprintf("checksummed span starts at %s (wire position %d), not at the first header byte of this frame", s.Args[1].Pretty(), p)
 			case bb == nil || !isRootBuf(bb.Buf):
@@ -782,9 +792,9 @@ func (a *Analysis) CheckC06(rep *Report) {
 					arg := stripIface(e.Args[0])
 					okc := false
 					if arg.Op == "call" && arg.Name == "bytes.NewBuffer" {
-						s := stripCT(arg.Args[0])
+						s := flattenSlice(arg.Args[0])
 						if s.Op == "slice" && s.Args[1] != nil {
-							if m := ix.marker(stripIntConv(s.Args[1])); m != nil && m.Kind == EvLen && ix.wirePos[m] == 0 {
+							if pLo, m, okLo := ix.cutOf(s.Args[1]); okLo && m != nil && pLo == 0 {
 								okc = true
 							}
 						}
